@@ -102,5 +102,6 @@ func init() {
 			"extractModuleMetrics", "findProjectRoot"} {
 			recordDigest(svc, "system_analysis_service.go", "SystemAnalysisServiceImpl", f)
 		}
+		recordDigest(svc, "system_analysis_service.go", "", "acyclicChainHeights")
 	})
 }
